@@ -873,11 +873,13 @@ void eval_instruction (const char *p) {
             s = fp + EXTRACT_UCHAR (pc++);
             if (s->type == T_NUMBER)
               {
-                i = (int)s->u.number--;
+                i = (s->u.number-- != 0);
               }
             else if (s->type == T_REAL)
               {
-                i = (int)s->u.real--;
+                /* a real is never zero for a branch (see F_BRANCH_WHEN_ZERO) */
+                s->u.real--;
+                i = 1;
               }
             else
               {
